@@ -149,6 +149,28 @@ def lookupTbl (tbl : List (String × Option String)) (k : String) : Option (Opti
   | [] => none
   | (k', v) :: rest => if k' = k then some v else lookupTbl rest k
 
+def hunkEvents (h : String) : Option (List Lifetime.Event) :=
+  h.toList.foldlM (fun acc c =>
+    match c with
+    | 'c' => some (acc ++ [Lifetime.Event.contextLine])
+    | 'b' => some (acc ++ [Lifetime.Event.changedLine false])
+    | 'f' => some (acc ++ [Lifetime.Event.changedLine true])
+    | _ => none) [Lifetime.Event.hunkHeader]
+
+/-- `<xminus | -> <xplus | -> <hunks>`; hunks: `_` or `.`-separated strings over c/b/f. -/
+def takeFileSections : Nat → List String →
+    Option (List (Option (List Char) × Option (List Char) × List Lifetime.Event))
+  | 0, [] => some []
+  | n + 1, m :: p :: h :: rest => do
+    let m ← if m = "-" then some none else (stringOfField m).map fun x => some x.toList
+    let p ← if p = "-" then some none else (stringOfField p).map fun x => some x.toList
+    let evs ← if h = "_" then some [] else
+      List.foldlM (fun (acc : List Lifetime.Event) (x : String) => (hunkEvents x).map fun e => acc ++ e)
+        [] (h.splitOn ".")
+    let more ← takeFileSections n rest
+    pure ((m, p, evs) :: more)
+  | _, _ => none
+
 def step (line : String) : String :=
   match fields line with
   | "superimpose.run" :: tc :: null :: q :: rest =>
@@ -210,6 +232,28 @@ def step (line : String) : String :=
         let byExt (k : List Char) : Option String := (lookupTbl tbl (String.ofList k)).getD none
         "ok " ++ hexOfString (getSyntax byExt fb (path.map String.toList))
     | _, _, _ => "ERR"
+  | "superimpose.lifetime" :: fb :: tbl :: nsec :: rest =>
+    match stringOfField fb, decTable tbl, nsec.toNat? with
+    | some fb, some tbl, some nsec =>
+      match takeFileSections nsec rest with
+      | some secs =>
+        let names : List (List Char) := secs.flatMap fun sc => sc.1.toList ++ sc.2.1.toList
+        let keys : List String := names.flatMap fun p =>
+          [String.ofList ((fileName p).getD []), String.ofList ((extension p).getD [])]
+        if keys.any (fun k => (lookupTbl tbl k).isNone) then "ERR key-not-in-table"
+        else
+          let byExt (k : List Char) : Option String := (lookupTbl tbl (String.ofList k)).getD none
+          let lang : Option (List Char) → String := getSyntax byExt fb
+          let evs : List Lifetime.Event :=
+            (secs.flatMap fun sc => [.fileMinus sc.1, .filePlus sc.2.1] ++ sc.2.2) ++ [.flush]
+          let r := Lifetime.run lang (Lifetime.initial lang) evs
+          r.2.foldl (fun acc q =>
+            acc ++ " " ++ (match q.kind with | .fragment => "F" | .line => "L") ++ ":" ++
+              (match q.used with
+               | some (l, n) => hexOfString l ++ ":" ++ toString n
+               | none => "-:0") ++ ":" ++ hexOfString q.expected.1 ++ ":" ++ toString q.expected.2) "ok"
+      | none => "ERR sections"
+    | _, _, _ => "ERR header"
   | _ => "ERR unknown"
 
 end SuperimposeDriver
